@@ -77,6 +77,9 @@ def wrapper_case(rng, tier, algo=None):
                       dim=int(rng.integers(1, 3)))
     # rhomax where the wrappers have a budget per learner (H >= 1) most of the time
     c["params"] = {"nu": float(10 ** rng.uniform(-1, 1)), "rhomax": float(rng.uniform(0.05, 0.97))}
+    if rng.random() < 0.12:
+        # small numax (below 1/sqrt(n), where T-HOO's depth bound is <= 0) and large numax
+        c["params"]["nu"] = float(10 ** rng.uniform(-4, -1)) if rng.random() < 0.7 else float(10 ** rng.uniform(1, 3))
     c["_cost"] = 1e-3 * n + 0.1
     return gen.add_midqueries(rng, gen.add_queries(rng, c, 0.5), 0.3)
 
